@@ -70,8 +70,9 @@ inductive Op
   | ret             -- pool.Return(key, c) for the oldest connection it holds
   | use             -- uses the oldest connection it holds (stamps lastUseAt)
   | drop            -- closes the oldest connection it holds itself (remote.go does so when !Usable())
-  | cleanup         -- pool.CleanUp (the ticker's job)
+  | cleanup         -- pool.CleanUp called directly
   | shutdown        -- pool.Close
+  | sweep           -- the pool's ticker goroutine (`cleanUpTick`): its ticker fires and it calls `CleanUp`
   deriving Repr, DecidableEq
 
 inductive Pc
@@ -172,6 +173,10 @@ structure St where
   Written by nobody but the scheduler's `cancel` decision; `pool.go` itself never looks at the context, it only
   passes it on to `cfg.New`. -/
   cancelled : Nat → Bool
+  /-- the pool's own ticker goroutine (`cleanUpTick`): `some i` = its ticker has fired and it is inside `CleanUp`
+  (goroutine `i` of the model runs that call) or on its way back to the `select`; `none` = it is parked in its
+  `select`, the only place where it can take the stop signal `Close` sends on the unbuffered `cleanupStop`. -/
+  tkTask : Option Nat := none
 
 inductive Who
   | task (i : Nat) (pick : Nat)
@@ -251,6 +256,8 @@ def stepTask (s : St) (i : Nat) (t : Task) (p : Nat) : Option St :=
   | .done => none
   | .panicked _ => none
   | .idle =>
+    -- the ticker goroutine is back from `CleanUp`: it returns to the `select` of `cleanUpTick`
+    if s.tkTask = some i then some { setTask s i t with tkTask := none } else
     match t.prog with
     | [] => some (setTask s i { t with pc := .done })
     | op :: rest =>
@@ -274,6 +281,11 @@ def stepTask (s : St) (i : Nat) (t : Task) (p : Nat) : Option St :=
         | (c, _) :: hs => some (setTask s i { t with pc := .wClose c, held := hs })
       | .cleanup => some (setTask s i { t with pc := .cLock })
       | .shutdown => some (setTask s i { t with pc := .sStop })
+      /- the ticker of `cleanUpTick` fires: the ticker goroutine leaves its `select` and calls `CleanUp`.  A tick is
+      lost when the goroutine is not in the `select` (still busy with the previous sweep) or has been stopped. -/
+      | .sweep =>
+        if s.ticker && s.tkTask.isNone then some { setTask s i { t with pc := .cLock } with tkTask := some i }
+        else some (setTask s i t)
   | .wClose c => some { setTask s i { t with pc := .idle } with closed := c :: s.closed }
   | .kClose c => some { setTask s i { t with pc := .done } with closed := c :: s.closed }
   /- ---------------- Get ----------------
@@ -392,8 +404,12 @@ def stepTask (s : St) (i : Nat) (t : Task) (p : Nat) : Option St :=
     | .wouldBlock => none
     | .noChan => some (panic s i t)
   /- ---------------- Close ---------------- -/
+  /- `p.cleanupStop <- struct{}{}`: the channel is unbuffered, the send completes only when the ticker goroutine is
+  parked in the `select` of `cleanUpTick` (alive, and not inside `CleanUp`).  It is the FIRST thing `Close` does —
+  before it takes `keysLock` (`sLock`): a ticker goroutine that waits for the lock inside `CleanUp` is never waited
+  for by somebody who holds that lock (`C19_no_deadlock_single_shutdown`, `C19_stop_under_lock_blocks`). -/
   | .sStop =>
-    if s.ticker then some { setTask s i { t with pc := .sLock } with ticker := false } else none
+    if s.ticker && s.tkTask.isNone then some { setTask s i { t with pc := .sLock } with ticker := false } else none
   | .sLock =>
     if s.lock.isSome then none else
     match pickOf s.keys p with
